@@ -193,6 +193,19 @@ EarlyTermsScheduled(Wd) ==
         \E k \in Idx(Wd.power.cronq) : \E j \in Idx(Wd.power.cronq[k].evs) :
             Wd.power.cronq[k].evs[j][1] = M.m
 
+\* ---- C01: conservation.  bals : Seq(<<name, amount>>), tr : Seq(<<from, to, amount>>) = the value
+\* transfers that took effect during the event (sub-calls that failed contribute nothing)
+BalNames(b) == {b[i][1] : i \in Idx(b)}
+BalOf(b, a) == IF a \in BalNames(b) THEN b[CHOOSE i \in Idx(b) : b[i][1] = a][2] ELSE BZero
+RECURSIVE NetFlow(_, _, _)
+NetFlow(tr, a, i) == IF i > Len(tr) THEN BZero
+                     ELSE BAdd(IF tr[i][2] = a THEN tr[i][3] ELSE BZero,
+                               BAdd(IF tr[i][1] = a THEN BNeg(tr[i][3]) ELSE BZero, NetFlow(tr, a, i + 1)))
+LedgerDelta(pre, post, tr) ==
+  \A a \in BalNames(pre) \cup BalNames(post) : BEq(BSub(BalOf(post, a), BalOf(pre, a)), NetFlow(tr, a, 1))
+LedgerUnchanged(pre, post) == \A a \in BalNames(pre) \cup BalNames(post) : BEq(BalOf(post, a), BalOf(pre, a))
+NoNegativeBalance(b) == \A i \in Idx(b) : ~BIsNeg(b[i][2])
+
 \* ---- C14: the vesting table
 VestShape(Wd) ==
   \A i \in Idx(Wd.miners) : LET M == Wd.miners[i] IN
